@@ -256,7 +256,93 @@ class InversionSampler(Lemma):
         return (bool(bad or hist), {**info, "history_dependent": bool(hist)})
 
 
-UNITS = [BinarySearchTreeSampler(), HuffmanSampler(), AliasSampler(), InversionSampler()]
+class InversionOverTheStatesManager(Lemma):
+    """InversionMethod.sample_with_u TOGETHER WITH StatesManager.project_index_to_state_increment (both real bodies; only the
+    admissibility test and the pairing abstract): pairing indices 0..M-1 of which a given subset is outside the grid, the
+    store of cumulative sums capped at `cap` entries.  The admissible index r is returned exactly for u in (C_{k-1}, C_k]
+    (cumulative sums over the admissible indices in increasing order), also after the store is full, and a second uniform
+    is answered as a fresh sampler answers it -- the index projection is stateful (it restarts behind the last stored
+    state), so both draws go through the real restart logic."""
+    prop = "C02"
+    # (outside mask over the pairing indices, cap of the store)
+    cases = (("01000", 2), ("00100", 2), ("10100", 2), ("010010", 3), ("00000", 2), ("0110", 1), ("01000", 9))
+
+    def __init__(self):
+        self.name = "property:inversion-over-the-states-manager"
+
+    def _sampler(self, vc, mask, cap, ps):
+        it = vc.interp
+        PP = "rpylib.distribution.pairing:"
+        M = len(mask)
+        sm = vc.obj(PP + "StatesManager", max_frontier_indices=M - 1, _last_projected_index=-1, _last_logged_index=-1, pairing=vc.obj(PP + "PairingToZd"))
+        it.hooks[PP + "StatesManager.is_outside"] = lambda it_, f, b: mask[b["state_increment"][1]] == "1"
+        it.hooks[PP + "PairingToZd.project"] = lambda it_, f, b: ("state", int(b["x"]))
+        it.hooks[PP + "StatesManager._sample_frontier_state_increment"] = lambda it_, f, b: ("frontier", -1)
+        prob = it.lib.Model(lambda it_, s_: ps[s_[1]], "probability_to_jump_to_state")
+        smp = vc.new(V + "inversion:InversionMethod", prob, sm)
+        smp.fields["_max_storage"] = cap
+        return smp
+
+    def prove(self, vc, case):
+        mask, cap = case
+        nm = f"{self.name}[outside {mask}, store capped at {cap}]"
+        adm = [r for r, c in enumerate(mask) if c == "0"]
+        ps = {}
+        for r in adm:
+            ps[r] = vc.real(f"p{r}")
+            vc.assume(ps[r] > 0)
+        vc.assume(compare(sum(ps.values(), 0.0), 1, "=="))
+        smp = self._sampler(vc, mask, cap, ps)
+        u1, u2 = vc.real("u1"), vc.real("u2")
+        vc.assume(And(u1 >= 0, u1 < 1, u2 >= 0, u2 < 1))
+        r1 = vc.method(smp, "sample_with_u", u1)
+        r2 = vc.method(smp, "sample_with_u", u2)
+        for which, u, res in (("first", u1, r1), ("second", u2, r2)):
+            for k, lo, hi in cum(ps, adm):
+                inside = And(lo < u, u <= hi) if k != adm[0] else (u <= hi)
+                got = (res == ("state", k)) if res is not None else False
+                vc.check(nm + f"::{which}-draw:index{k}-exactly-on-an-interval-of-length-p{k}", (got == inside) if is_sym(inside) else (bool(got) == bool(inside)))
+        fresh = self._sampler(vc, mask, cap, ps)
+        r2f = vc.method(fresh, "sample_with_u", u2)
+        vc.check(nm + "::second-draw-independent-of-the-first", r2 == r2f)
+
+    def replay(self, model, clause, case):
+        from rpylib.distribution.variate.inversion import InversionMethod
+        from rpylib.distribution.pairing import StatesManager
+        mask, cap = case
+        adm = [r for r, c in enumerate(mask) if c == "0"]
+        m = model or {}
+
+        def val(k, d):
+            v = m.get(k)
+            return float(v["float"]) if isinstance(v, dict) and "float" in v else (float(v) if isinstance(v, (int, float)) else d)
+        p = {r: val(f"p{r}", 1.0 / len(adm)) for r in adm}
+        tot = sum(p.values())
+        p = {r: v / tot for r, v in p.items()}
+
+        def make():
+            sm = StatesManager.__new__(StatesManager)
+            sm.max_frontier_indices, sm._last_projected_index, sm._last_logged_index = len(mask) - 1, -1, -1
+            sm.is_outside = lambda st: mask[st[0]] == "1"
+            sm.pairing = type("P", (), {"project": staticmethod(lambda x: (int(x),))})()
+            sm._sample_frontier_state_increment = lambda: (-1,)
+            s = InversionMethod(lambda st: p[st[0]], sm)
+            s._max_storage = cap
+            return s
+        edges = np.cumsum([p[r] for r in adm])
+
+        def want(u):
+            return adm[min(int(np.searchsorted(edges, u, side="left")), len(adm) - 1)]
+        us = [val("u1", 0.999), val("u2", 0.9995)] + [float(x) for x in (np.arange(200) + 0.5) / 200]
+        s = make()
+        for i, u in enumerate(us):
+            got = s.sample_with_u(u)[0]
+            if got != want(u):
+                return (True, {"outside_mask": mask, "store_cap": cap, "p": p, "uniforms_so_far": us[:i + 1], "returned_index": int(got), "index_of_that_uniform": int(want(u))})
+        return (False, {"outside_mask": mask, "store_cap": cap, "p": p})
+
+
+UNITS = [BinarySearchTreeSampler(), HuffmanSampler(), AliasSampler(), InversionSampler(), InversionOverTheStatesManager()]
 ASSUMPTIONS = ["A1: floats are mathematical reals (the alias method's comment about p = 1.0 arriving as 0.999999 is a floating-point concern outside this model)",
                "the number of states is enumerated (K = 2, 3, 4, with and without zero entries): complete in the probabilities and in the uniform, bounded in K",
                "the table method (32 random bits) and the adapted bisection samplers are covered only by the bounded native battery"]
@@ -381,6 +467,37 @@ class FactoryBattery:
                         bad("inversion-with-a-capped-store-answers-like-an-uncapped-one-in-any-order", {**info, "u": k, "uncapped": ref[k], "capped_random_order": a[k], "capped_decreasing_order": b[k]})
                 except Exception as e:
                     bad("sampler-built-by-the-factory-samples", {**info, "exception": f"{type(e).__name__}: {str(e)[:120]}"})
+            # the same in two dimensions on a grid that is not symmetric about the origin: pairing indices of states outside the
+            # grid are skipped, so the k-th stored state is not the state of pairing index k
+            ev += 1
+            try:
+                from rpylib.model.levycopulamodel import LevyCopulaModel
+                from rpylib.distribution.levycopula import ClaytonCopula
+                from rpylib.model.levymodel.mixed.hem import HEMParameters, HEMModel
+                from rpylib.process.markovchain.markovchainlevycopula import MarkovChainLevyCopula
+                cma = LevyCopulaModel(models=[HEMModel(parameters=HEMParameters(sigma=0.1, p=0.6, eta1=25.0, eta2=40.0, intensity=5.0)),
+                                              HEMModel(parameters=HEMParameters(sigma=0.1, p=0.3, eta1=15.0, eta2=60.0, intensity=5.0))], copula=ClaytonCopula(theta=0.7, eta=0.3))
+                ga = CTMCUniformGrid(h=0.1, model=cma)
+                ua = (np.arange(3000) + 0.5) / 3000
+                pa = MarkovChainLevyCopula(levy_copula_model=cma, grid=ga, method=SamplingMethod.INVERSION)
+                proto = pa.sampling
+
+                def inv2(cap):
+                    import copy
+                    s_ = copy.deepcopy(proto)
+                    if cap is not None:
+                        s_._max_storage = cap
+                    return [tuple(int(v) for v in np.ravel(s_.sample_with_u(float(u)))) for u in ua]
+                ref2 = inv2(None)
+                for cap in (35, 67, 75):
+                    a2 = inv2(cap)
+                    if a2 != ref2:
+                        k = next(i for i in range(len(ua)) if a2[i] != ref2[i])
+                        bad("inversion-with-a-capped-store-answers-like-an-uncapped-one-in-any-order", {"model": "clayton copula of two different HEM margins", "grid_axes": [len(a_) for a_ in ga.axes], "origin": [int(v) for v in ga.origin_coordinate.value],
+                                                                                                         "stored_cumulative_sums_capped_at": cap, "u": float(ua[k]), "uncapped": list(ref2[k]), "capped": list(a2[k])})
+                        break
+            except Exception as e:
+                bad("sampler-built-by-the-factory-samples", {"method": "INVERSION, capped store, 2-d", "exception": f"{type(e).__name__}: {str(e)[:120]}"})
             # the table method on a short vector whose first state owns table slots
             ev += 1
             try:
